@@ -185,6 +185,14 @@ def native_harness(tier, seed):
             n += 1
             if not (np.allclose(sdr, sdr2, atol=1e-6) and np.allclose(sir, sir2, atol=1e-6) and np.allclose(sar, sar2, atol=1e-6) and (perm == perm2).all()):
                 fails.append('bss_eval_sources is not invariant to scaling the estimates (nsrc=%d)' % nsrc)
+            # the images variant: SIR, SAR and the permutation are gain invariant (SDR / ISR of the images variant measure the gain
+            # mismatch by construction: recorded finding KF-bss-images-gain, the true image is the reference itself, not its projection)
+            if nsrc == 2:
+                i0 = S.bss_eval_images(ref, est)
+                i1 = S.bss_eval_images(ref, est * c)
+                n += 1
+                if not (np.allclose(i0[2], i1[2], atol=1e-6) and np.allclose(i0[3], i1[3], atol=1e-6) and (i0[4] == i1[4]).all()):
+                    fails.append('bss_eval_images SIR / SAR / perm are not invariant to scaling the estimates: %s vs %s' % ([x.tolist() for x in i0[2:]], [x.tolist() for x in i1[2:]]))
             # reordering the estimates permutes the result
             order = rs.permutation(nsrc)
             sdr3, sir3, sar3, perm3 = S.bss_eval_sources(ref, est[order])
